@@ -367,7 +367,28 @@ func renderRes(v any) string {
 
 const nF = 4
 
+// duringHook, when set, is called by every predicate / key function before it answers: the property uses it to look
+// at the arguments WHILE a helper is running (a helper that returns something new must not rearrange its arguments,
+// not even temporarily: a callback, or another goroutine, reading the same slice would see it).
+var duringHook func()
+
+func observe() {
+	if duringHook != nil {
+		duringHook()
+	}
+}
+
 func pred(f int) func(int) bool {
+	p := purePred(f)
+	return func(v int) bool { observe(); return p(v) }
+}
+
+func keyFn(f int) func(int) int {
+	k := pureKeyFn(f)
+	return func(v int) int { observe(); return k(v) }
+}
+
+func purePred(f int) func(int) bool {
 	switch ((f % nF) + nF) % nF {
 	case 0:
 		return func(v int) bool { return v%2 != 0 }
@@ -379,7 +400,7 @@ func pred(f int) func(int) bool {
 	return func(v int) bool { return v < 2 }
 }
 
-func keyFn(f int) func(int) int {
+func pureKeyFn(f int) func(int) int {
 	switch ((f % nF) + nF) % nF {
 	case 0:
 		return func(v int) int { return v }
@@ -454,16 +475,16 @@ var registry = []*helper{
 	fresh("Map", sA, func(e *env, c Call) any { return gogu.Map(e.a, keyFn(c.F)) }).f(),
 	scalar("ForEach", sA, func(e *env, c Call) any {
 		acc := 0
-		gogu.ForEach(e.a, func(v int) { acc += v })
+		gogu.ForEach(e.a, func(v int) { observe(); acc += v })
 		return acc
 	}),
 	scalar("ForEachRight", sA, func(e *env, c Call) any {
 		acc := 0
-		gogu.ForEachRight(e.a, func(v int) { acc = acc*3 + v })
+		gogu.ForEachRight(e.a, func(v int) { observe(); acc = acc*3 + v })
 		return acc
 	}),
 	scalar("Reduce", sA, func(e *env, c Call) any {
-		return gogu.Reduce(e.a, func(v, acc int) int { return acc + v }, 0)
+		return gogu.Reduce(e.a, func(v, acc int) int { observe(); return acc + v }, 0)
 	}),
 	inPlace("Reverse", sA, sA, func(e *env, c Call) any { return gogu.Reverse(e.a) }),
 	fresh("Unique", sA, func(e *env, c Call) any { return gogu.Unique(e.a) }),
@@ -672,8 +693,28 @@ func prop(c Case, r *pbt.R) error {
 	for i, cl := range c.Calls {
 		h := hs[i]
 		before := e.snap()
+		during := ""
+		duringHook = func() {
+			if during != "" {
+				return
+			}
+			now := e.snap()
+			for sl := 0; sl < nSlots; sl++ {
+				if h.target&(1<<uint(sl)) != 0 {
+					continue // the one argument an in-place helper works on
+				}
+				if now[sl] != before[sl] {
+					during = fmt.Sprintf("argument slot %d read %q / %q while a callback of the helper was running, it was %q / %q when the helper was called", sl, now[sl].fixed, now[sl].free, before[sl].fixed, before[sl].free)
+					return
+				}
+			}
+		}
 		res, panicked := callHelper(h, e, cl)
+		duringHook = nil
 		after := e.snap()
+		if during != "" {
+			return fmt.Errorf("call %d %s{n=%d f=%d} (%s helper) in %s: %s (a helper may not rearrange an argument it does not own, not even for the duration of the call)", i, h.name, cl.N, cl.F, classNames[h.class], c.String(), during)
+		}
 		r.Label("class:" + classNames[h.class])
 		if panicked != "" {
 			// A panic (documented rejection or not) is not this property's business; the
